@@ -63,7 +63,8 @@ class C16(Prop):
     def model_runs(self, tier):
         if tier == "quick":
             return [{"module": "MC_ClassStyle", "cfg": "ClassStyle_quick.cfg"},
-                    {"module": "MC_ClassStyle", "cfg": "ClassStyle_css.cfg", "export": False}]
+                    {"module": "MC_ClassStyle", "cfg": "ClassStyle_css.cfg", "export": False},
+                {"module": "MC_ClassStyle", "cfg": "ClassStyle_sim.cfg", "simulate": "num=1000", "depth": 10, "export": False, "timeout": 900}]
         return [{"module": "MC_ClassStyle", "cfg": "ClassStyle_thorough.cfg", "export": False},
                 {"module": "MC_ClassStyle", "cfg": "ClassStyle_thorough_gen.cfg"},
                 {"module": "MC_ClassStyle", "cfg": "ClassStyle_css.cfg", "export": False}]
